@@ -513,3 +513,50 @@ func H_C03_group_limit() {
 	verif.Assert(verif.Eq(got, want), "window-over-complete-groups")
 	verif.Reach("end")
 }
+
+// H_C03_mixedkeys: grouping cells of different kinds whose texts coincide
+// (1 and '1', TRUE and 'true', NULL and '<nil>') are different keys: every
+// group holds exactly the rows whose cell is the same value of the same kind.
+func H_C03_mixedkeys() {
+	n := verif.Choose("rows", maxRows(3, 4)+1)
+	verif.Opt("maporder", 3)
+	cells := []any{float64(1), "1", true, "true", nil, "<nil>", float64(2), "1.0"}
+	rows := make([]Map, n)
+	arr := make([]any, n)
+	for i := range rows {
+		rows[i] = Map{"k": cells[verif.Choose("cell", len(cells))], "v": float64(i + 1)}
+		arr[i] = rows[i]
+	}
+	got, ok := runQuery(Map{"t": arr}, "SELECT k, COUNT(*) AS c, SUM(v) AS s, MIN(v) AS lo FROM t GROUP BY k")
+	if !ok {
+		return
+	}
+	type grp struct {
+		k  any
+		c  int
+		s  float64
+		lo float64
+	}
+	var groups []*grp
+	for _, r := range rows {
+		var g *grp
+		for _, c := range groups {
+			if c.k == r["k"] {
+				g = c
+				break
+			}
+		}
+		if g == nil {
+			g = &grp{k: r["k"], lo: f64of(r["v"])}
+			groups = append(groups, g)
+		}
+		g.c++
+		g.s += f64of(r["v"])
+	}
+	var want []any
+	for _, g := range groups {
+		want = append(want, Map{"k": g.k, "c": g.c, "s": g.s, "lo": g.lo})
+	}
+	verif.Assert(eqAnyOrder(got, want), "groups-by-value-and-kind")
+	verif.Reach("end")
+}
